@@ -31,10 +31,10 @@ LEVEL = "model_checking"
 is_reset = channel_common.is_reset
 
 PROFILE = {
-    "C05": dict(mc=dict(quick=["mc_c05_quick"], thorough=["mc_c05_quick", "mc_c05_thorough"]),
+    "C05": dict(mc=dict(quick=["mc_c05_quick_disc", "mc_c05_quick_fee"], thorough=["mc_c05_mid", "mc_c05_thorough"]),
                 gen=dict(MaxDisc=2, MaxAdds=4, MaxFees=3, MaxLen=100),
                 n=dict(quick=42, thorough=280), every=dict(quick=3, thorough=1)),
-    "C04": dict(mc=dict(quick=["mc_c05_quick"], thorough=["mc_c05_quick", "mc_c05_thorough"]),
+    "C04": dict(mc=dict(quick=["mc_c05_quick_disc", "mc_c05_quick_fee"], thorough=["mc_c05_mid", "mc_c05_thorough"]),
                 gen=dict(MaxDisc=2, MaxAdds=4, MaxFees=3, MaxLen=100),
                 n=dict(quick=98, thorough=700)),
 }
@@ -230,6 +230,17 @@ def run(ck, extra_overlay=None):
                               for r in cc for x in r["res"]) + sum(
             sum(1 for k in ("ok", "lo", "cl") if r["self"][k] != -1) + (1 if r["commit"] != -1 and r["x"] == 0 else 0)
             for r in cc))
+    # how many of the judged commitments carried HTLCs WITHOUT an output (trimmed), per the executor's own projection
+    trimmed, last = 0, None
+    for r in recs:
+        if r["a"] == "CloseCheck" and last is not None and r["err"] == "":
+            chain = last["sh"][r["p"]]["LC" if r["x"] == 0 else "RC"]
+            c = chain[0] if r["x"] < 2 else (chain[1] if len(chain) > 1 else None)
+            if c is not None and len(c["outs"]) + len(c["ins"]) > len(r["res"]):
+                trimmed += 1
+        elif r["a"] not in ("CloseCheck", "Reset"):
+            last = r
+    ck.cov["close_checks"]["commitments_with_trimmed_htlcs"] = trimmed
     big = [r for r in cc if len(r["res"]) >= 2]
     if big:
         r = big[len(big) // 2]
